@@ -32,6 +32,20 @@ CLAIMED["C05"] = {
   "technique": "deterministic simulation of a writer process and a configuration-skewed reader process over real HDF5 storage; per-value read-back against the written history",
 }
 
+CLAIMED["C14"] = {
+  "text": "Seeded search over fuel-management histories on generated hex cores (1-3 rings, full/third symmetry, holes, stationary grid-plate blocks on/off, spent-fuel pool and tracking on/off): 4-40 operations per run (swap, cascade with None entries, discharge for a fresh or pooled assembly, add at a free location, remove/purge; plus rejected operations in their own configuration) executed by the real FuelHandler/Core; after every operation an inventory-ledger + location-map model is advanced and the statement's invariants are evaluated through the public API: children vs model, one assembly per location where the operation put it, location table == assemblies present, every live assembly/block found under its current name, purged ones never returned, block order/heights/dimensions/number densities unchanged up to the stationary exchange. Sampling, not proof.",
+  "design_ref": "DESIGN.md §4 (C14)",
+  "note": "Trusted: models/shuffle.py (written from the statement). World B: single actor, no clock or I/O; what is simulated is the operation history and rejected operations.",
+  "technique": "seeded model-based history search (deterministic simulation, single actor) against an inventory/location reference model, invariants after every operation",
+}
+
+CLAIMED["C16"] = {
+  "text": "Seeded search over edit/scope histories on generated hex cores: 8-60 steps per run mixing parameter assignments of every kind on every level, number-density / temperature / hex-pitch / block-height changes, retainState scopes opened on arbitrary objects with arbitrary keep-sets and nesting up to 4, scopes left normally or cancelled by an exception raised at a plan-chosen step inside them, cache computations, deep copies and pickle round trips followed by edits on one side, and the read-only switch followed by assignments. Model: a stack of (object, keep-set, snapshot of the subtree's observable state); on every exit the state must equal the snapshot except that kept parameters hold their inner values (LIFO across nesting); copies equal, independent, fresh serial numbers, no serial shared by live objects; read-only refuses every assignment and changes nothing. Sampling, not proof.",
+  "design_ref": "DESIGN.md §4 (C16)",
+  "note": "Trusted: the snapshot/diff code in worlds/c16.py. Observable state = parameters, number densities, temperatures, grid constructor arguments. Pickles are checked for equality and independence, serial-number freshness only for deep copies.",
+  "technique": "seeded model-based history search (deterministic simulation, single actor) with interrupted scopes as the injected fault; stack-of-snapshots reference model",
+}
+
 NA = {
  "C07": "pure function of (grid, index): no event order, clock, I/O or fault to simulate; exhaustive enumeration over N rings is the right tool, not simulation (DESIGN.md §6)",
  "C08": "pure functions of (grid, cell, k) and of a block's contents; rotations appear only as workload in the simulated runs (DESIGN.md §6)",
